@@ -238,7 +238,8 @@ def check_chunk_step(repo, rep, rid="C12-R3", need="gcd-of-all"):
     need = 'divides-trading': the step must divide every trading-route timeframe (C01: no chunk straddles a trading-candle boundary)"""
     if need == "gcd-of-all":
         rep.rule(rid, "_calculate_minimum_candle_step interpreted for route sets (trading + data routes): the chunk length is the gcd of "
-                      "the minutes of ALL routes, so every route's candle boundary is a chunk boundary")
+                      "the minutes of ALL routes and of one day, so every route's candle boundary and every day boundary (equity "
+                      "sample) is a chunk boundary")
     else:
         rep.rule(rid, "_calculate_minimum_candle_step interpreted for route sets (trading + data routes): the chunk length divides every "
                       "trading-route timeframe, so no chunk of the fast simulator straddles a trading-candle boundary (its hooks would "
@@ -254,8 +255,10 @@ def check_chunk_step(repo, rep, rid="C12-R3", need="gcd-of-all"):
     # (trading routes, data routes): larger, smaller and non-multiple data timeframes
     sets = [(("1m",), ()), (("5m",), ()), (("5m",), ("15m",)), (("3m",), ("5m",)), (("45m",), ("1h",)), (("15m",), ("1h", "4h")), (("1h",), ("4h",)),
             (("30m",), ("45m",)), (("2h",), ("3h",)), (("15m",), ("5m",)), (("1h",), ("45m",)), (("4h",), ("1h", "15m")),
-            (("5m", "15m"), ()), (("3m", "5m"), ("15m",)), (("15m", "1h"), ("5m",))]
-    tf = {"1m": 1, "3m": 3, "5m": 5, "15m": 15, "30m": 30, "45m": 45, "1h": 60, "2h": 120, "3h": 180, "4h": 240}
+            (("5m", "15m"), ()), (("3m", "5m"), ("15m",)), (("15m", "1h"), ("5m",)),
+            # at most one day (the equity is sampled at every day boundary, C16): timeframes above a day are multiples of a day
+            (("1D",), ()), (("3D",), ()), (("1W",), ("1D",)), (("4h",), ("3D",))]
+    tf = {"1m": 1, "3m": 3, "5m": 5, "15m": 15, "30m": 30, "45m": 45, "1h": 60, "2h": 120, "3h": 180, "4h": 240, "1D": 1440, "3D": 4320, "1W": 10080}
     for trading, data in sets:
         rs = trading + data
 
@@ -267,7 +270,7 @@ def check_chunk_step(repo, rep, rid="C12-R3", need="gcd-of-all"):
             fn = repo.func(BT, "_calculate_minimum_candle_step")
             return it, lambda it: it.call(FuncV(fn, repo.module(BT), qual="_calculate_minimum_candle_step"), [], {})
         for out in explore(mk, 8):
-            want = 0
+            want = 1440 if need == "gcd-of-all" else 0
             for t in rs:
                 want = math.gcd(want, tf[t])
             v = out.value
